@@ -529,6 +529,36 @@ def check_r3(facts, rep, crate):
     rep.floor(rid, "macro-delegated accessors", m, 9)
 
 
+MUTATORS = {"push", "insert", "pop", "remove", "clear", "truncate", "split_off", "drain", "retain", "swap_remove", "extend", "append",
+            "extend_from_slice", "resize", "dedup"}
+
+
+def check_r4(facts, rep, crate):
+    rid = "C20.R4"
+    rep.rule(rid, "no unpaired chunk mutation: every body that mutates LongChain.data also writes the cached length (or builds a fresh chain)")
+    n = 0
+    for b in crate.bodies:
+        if "LongChain" not in b.path:
+            continue
+        tr = Tracer(facts, b)
+        muts = vec_calls_on_data(facts, b, tr, MUTATORS)
+        muts = [m for m in muts if "Vec" in m[2]["def"] or "vec::" in m[2]["def"]]
+        if not muts:
+            continue
+        n += 1
+        rep.analysed(b)
+        has_store = any(ob is b for (ob, _, _, _, _, _) in stores(crate))
+        where = "%s (%s)" % (loc_str(b.loc), b.path)
+        names = sorted(set(m[2]["name"] for m in muts))
+        # Buf::advance removes a chunk only when it is empty (length already accounted by the delta): still needs a store
+        if has_store:
+            rep.ok(rid, b.path, where, "mutates data via %s and updates total_remaining_len" % names, nontrivial=False)
+        else:
+            rep.bad(rid, b.path, where, "the chunk vector is mutated (%s) but the cached length is never written in this function: "
+                                        "len()/remaining() disagree with the contents afterwards" % names)
+    rep.floor(rid, "chunk-vector mutators", n, 7)
+
+
 def check(facts, rep, tier, cfg):
     crate = facts.crate("cow_bytes")
     if crate is None:
@@ -537,3 +567,4 @@ def check(facts, rep, tier, cfg):
     check_r1(facts, rep, crate)
     check_r2(facts, rep, crate)
     check_r3(facts, rep, crate)
+    check_r4(facts, rep, crate)
